@@ -357,7 +357,19 @@ def is_convex(mesh):
     # if projections of vertex onto plane of adjacent
     # face is negative, it means the face pair is locally
     # convex, and if that is true for all faces the mesh is convex
-    convex = bool(mesh.face_adjacency_projections[adj_ok].max() < threshold)
+    projections = mesh.face_adjacency_projections
+
+    # the projection of the unshared vertex of the *first* face onto the
+    # plane of the *second* face is the same determinant divided by the
+    # area of the second face rather than the first, so it always has the
+    # same sign. The normal of a sliver face is decided by round-off which
+    # inflates the projection onto it, so use the smaller of the two.
+    origins = mesh.vertices[mesh.face_adjacency_edges[:, 0]]
+    reverse = util.diagonal_dot(
+        mesh.vertices[mesh.face_adjacency_unshared[:, 0]] - origins,
+        mesh.face_normals[mesh.face_adjacency[:, 1]],
+    )
+    convex = bool(np.minimum(projections, reverse)[adj_ok].max() < threshold)
 
     return convex
 
